@@ -662,7 +662,23 @@ def create_npu_elementwise_op(cmd: NpuStripe, arch: ArchitectureFeatures) -> Npu
         if op.activation is not None and op.activation.op_type in (Op.Sigmoid, Op.Tanh):
             output_scale = 1 / 0x3000
     if output_scale is not None:
-        npu_op.ofm.quantization = NpuQuantization(scale_f32=output_scale, zero_point=npu_op.ofm.quantization.zero_point)
+        ofm_quant = npu_op.ofm.quantization
+        act = npu_op.activation
+        if (
+            act is not None
+            and act.op_type == NpuActivationOp.NONE_OR_RELU
+            and ofm_quant.scale_f32 is not None
+            and output_scale != ofm_quant.scale_f32
+        ):
+            # The register generator quantises the clamp bounds with the quantisation of the OFM, whose scale is
+            # overridden below only to program OFM_SCALE: express the bounds in the overriding scale so that they
+            # quantise to the values the scale of the OFM tensor gives
+            zero_point = ofm_quant.zero_point
+            if act.min is not None:
+                act.min = output_scale * (quantise_float32(act.min, ofm_quant.scale_f32, zero_point) - zero_point)
+            if act.max is not None:
+                act.max = output_scale * (quantise_float32(act.max, ofm_quant.scale_f32, zero_point) - zero_point)
+        npu_op.ofm.quantization = NpuQuantization(scale_f32=output_scale, zero_point=ofm_quant.zero_point)
     return npu_op
 
 
